@@ -1,26 +1,17 @@
 //! C08 correspondence harness: calls the *real* memcpy/memmove/memset/memcmp/bcmp (and the private
-//! copy_forward/copy_backward) of /repo/tiny-start/src/symbols/mem.rs — textually included by
-//! build.rs with only `#[no_mangle]` stripped — on an arena described by each stdin line.
+//! forward / backward copy routines memcpy / memmove dispatch to, whatever their names and files) of
+//! /repo/tiny-start/src/symbols/mem.rs and /repo/tiny-start/src/symbols/mem/** — copied by build.rs
+//! with only `#[no_mangle]` stripped — on an arena described by each stdin line.
 //! `#![no_builtins]` (as tiny-start/src/lib.rs has) keeps LLVM from turning the loops back into
 //! calls to memcpy/memset (which in this process would be libc's, hiding the code under test).
 #![no_builtins]
 #![allow(dead_code, unused_imports, unused_unsafe, clippy::all)]
 use std::io::{BufRead, Write};
 
-mod mem {
-    include!(concat!(env!("OUT_DIR"), "/mem.rs"));
-
-    pub mod verif {
-        use super::*;
-        pub unsafe fn fwd(d: *mut u8, s: *const u8, n: usize) {
-            copy_forward(d, s, n)
-        }
-        pub unsafe fn bwd(d: *mut u8, s: *const u8, n: usize) {
-            copy_backward(d, s, n)
-        }
-        pub const CONSTS: (usize, usize, usize) = (WORD_SIZE, WORD_MASK, WORD_COPY_THRESHOLD);
-    }
-}
+// `pub mod symbols { #[path = "<OUT_DIR>/mem/mod.rs"] pub mod mem; }` — the repo's symbols/mem.rs and everything below
+// symbols/mem/, mounted where tiny-start has it (crate::symbols::mem), plus the appended `verif` glue (see build.rs)
+include!(concat!(env!("OUT_DIR"), "/mount.rs"));
+use symbols::mem;
 
 /// Access tracing: the arena is made inaccessible (PROT_NONE); every load and every store of the code under test
 /// faults, the SIGSEGV handler records the faulting address and whether it was a store (page-fault error code, bit 1),
@@ -458,8 +449,11 @@ fn main() {
     for line in stdin.lock().lines() {
         let line = line.unwrap();
         if line.trim() == "consts" {
-            let c = mem::verif::CONSTS;
-            writeln!(o, "word_size={} word_mask={} threshold={}", c.0, c.1, c.2).unwrap();
+            match mem::verif::CONSTS {
+                Some(c) => write!(o, "word_size={} word_mask={} threshold={}", c.0, c.1, c.2).unwrap(),
+                None => write!(o, "word_size=unknown word_mask=unknown threshold=unknown").unwrap(),
+            }
+            writeln!(o, " fwd={} bwd={} glue={}", mem::verif::FWD, mem::verif::BWD, mem::verif::GLUE).unwrap();
             continue;
         }
         // everything printed so far reaches the pipe before the code under test runs again: if it aborts
